@@ -375,6 +375,34 @@ def check_rescale(s, rule="C13.5"):
          detail=show_term(nz.canon(comp), 300))
     s.eq(rule, con + ".box", nz, f["box"], s.ref(b, "Box(low=mn, high=mx, shape=box.shape)", dict(ref, Box=("global", "lerax.space.box.Box"), box=("param", "box"))),
          "the advertised box is Box(min, max) of the original shape", loc, key="new-box")
+    # the coefficient arrays are created with ones_like / zeros_like of a template and then receive FLOAT values by scatter: the
+    # template has to be float by construction (cast with dtype=float, or a Box bound, which Box.__init__ casts) - `min` / `max` as the
+    # caller passed them may be Python ints (`RescaleAction(env, min=-1, max=1)`), the scatter then truncates g to 0 and x/g is inf
+    def float_by_construction(n_, depth=0):
+        if depth > 8 or not isinstance(n_, tuple) or not n_:
+            return False
+        if n_[0] == "attr" and n_[2] in ("low", "high") and n_[1] == ("param", "box"):
+            return True
+        if n_[0] == "cast":
+            return n_[1] in ("float",) or "float" in str(n_[1])
+        if n_[0] == "call":
+            kw = dict((k_, v) for k_, v in n_[3] if k_)
+            dt = kw.get("dtype")
+            if dt is not None and ("float" in show(dt)):
+                return True
+            if isinstance(n_[1], tuple) and n_[1][0] == "attr" and n_[1][2] == "astype" and n_[2] and "float" in show(n_[2][0]):
+                return True
+            if n_[1] in (("global", "jax.numpy.broadcast_to"), ("global", "jax.numpy.asarray"), ("global", "jax.numpy.array"), ("global", "jax.numpy.atleast_1d")) and n_[2] and dt is None:
+                return float_by_construction(n_[2][0], depth + 1)
+        if n_[0] == "bin" and n_[1] in ("Add", "Sub", "Mult", "Div"):
+            return n_[1] == "Div" or float_by_construction(n_[2], depth + 1) or float_by_construction(n_[3], depth + 1)
+        return False
+
+    tmpl = [c for c in walk(("tuple", (fw, bw))) if isinstance(c, tuple) and c and c[0] == "call" and c[1] in (("global", "jax.numpy.ones_like"), ("global", "jax.numpy.zeros_like"))]
+    bad_t = sorted({show(c, maxlen=80) for c in tmpl if not ("float" in show(dict((k_, v) for k_, v in c[3] if k_).get("dtype", NONE)) or (c[2] and float_by_construction(c[2][0])))})
+    s.ob(rule, con, bool(tmpl) and not bad_t, "the gradient / intercept arrays are float by construction (template cast to float, or dtype=float), whatever the dtype of the bounds passed in",
+         loc, key="float-coefficients", detail="; ".join(bad_t) or f"{len(tmpl)} templates",
+         necessary_for="the affine rescale takes the new bounds exactly onto the original bounds, also for bounds given as Python ints (min=-1, max=1)")
     # users
     bu = s.builder(inline={"rescale_box"})
     nzu = Normalizer(bu)
